@@ -763,6 +763,9 @@ func rulesC14(c *Ctx) {
 	// execution and returned by pointer to concurrent attempts): WithDone / WithFailure work on a fresh copy
 	c01Verdict(c)
 	c14Observers(c)
+	// "hedge attempts do not race with each other": concurrent HTTP attempts each read the request body through a
+	// reader of their own
+	c18BodyReader(c)
 	configImmutableAll(c)
 	buildCopiesConfig(c)
 	witnessRules(c, "C14")
